@@ -16,8 +16,26 @@ def explore(c, docs, maxcalls, want):
     c.add("states", r.distinct); c.add("transitions", r.generated)
     return r.lines(want)
 
+# ARGUMENT VALUES: the specification is parametric in the strings supplied (it only stores them), so every case may
+# be re-stated with other strings in the same positions - the empty string, blanks, a raw identifier, non-ASCII text:
+# what is supplied must come out verbatim whatever it is (paths are left alone: Path::new validates them)
+SIGMAS = [{"a": "", "b": " ", "T1": "  ", "d1": "", "d2": " "},
+          {"a": "r#a", "b": "\u00e9\u65e5", "T1": "", "d1": " d", "d2": ""}]
+def subst(v, sg):
+    if isinstance(v, dict): return {k: subst(x, sg) for k, x in v.items()}
+    if isinstance(v, list): return [subst(x, sg) for x in v]
+    if isinstance(v, str) and v in sg: return sg[v]
+    return v
+def with_argument_values(cases):
+    out = list(cases)
+    for sg in SIGMAS:
+        keys = ['"%s"' % k for k in sg]
+        out += [subst(cs, sg) for cs in cases if any(k in json.dumps(cs["calls"]) for k in keys)]
+    return out
+
 def run_positive(c, cases, docs):
     wd = c.wd
+    cases = with_argument_values(cases)
     deps = rsprog.Deps(("docs",) if docs else ())
     pd = os.path.join(wd, "progs_" + ("docs" if docs else "nodocs")); os.makedirs(pd, exist_ok=True)
     jobs, per = [], 200
